@@ -2,7 +2,7 @@
 change classes and differs, severity table, order independence."""
 import ast
 
-from .. import shapes
+from .. import boolx, shapes
 from ..model import AnalysisError, own_nodes, norm_stmt
 
 D = "py_gql.schema.differ"
@@ -234,6 +234,27 @@ def check(prog, run):
                                                                                "holds" if any(cur is b for b in par.body) else "does not hold"))
                     cur = par
 
+    # ---- P8 a comparison is skipped only when BOTH sides have nothing to compare
+    r8 = run.rule("P8", "an early `continue` / `return` in a differ function whose condition is built from the truthiness of an old_* and "
+                        "a new_* collection fires only when both are empty (truth table of the condition over the two emptiness atoms): "
+                        "with `not (old and new)` a member list going from empty to non-empty, or back, is never compared", 0)
+    for f in [x for x in prog.all_funcs() if x.module is dmod2]:
+        for n in own_nodes(f.node):
+            if not (isinstance(n, ast.If) and len(n.body) == 1 and isinstance(n.body[0], (ast.Continue, ast.Return)) and not n.orelse):
+                continue
+            names = boolx.atoms(n.test)
+            olds = [a for a in names if a.isidentifier() and a.startswith("old")]
+            news = [a for a in names if a.isidentifier() and a.startswith("new")]
+            if len(names) != 2 or len(olds) != 1 or len(news) != 1:
+                continue
+            r8.instance("%s: `%s`" % (f.qualname, boolx.text(n.test)))
+            for o, w in ((True, False), (False, True), (True, True)):
+                if boolx.evaluate(n.test, {olds[0]: o, news[0]: w}):
+                    run.report(r8, "%s:%s:skips-nonempty(%s)" % (D, f.qualname, boolx.text(n.test)), f.where(n),
+                               "`%s` skips the comparison when %s is %s and %s is %s: members added to / removed from an empty list are "
+                               "not reported" % (boolx.text(n.test), olds[0], "non-empty" if o else "empty", news[0], "non-empty" if w else "empty"))
+                    break
+
     # ---- P5 sibling default comparison
     r = run.rule("P5", "the three argument / input-field differs compare defaults with the same condition (presence changed, or "
                        "both present and values differ)", 3)
@@ -251,7 +272,6 @@ def check(prog, run):
         run.report(r, "%s:default-comparison:siblings-disagree" % D, "src/py_gql/schema/differ/__init__.py",
                    "the default-value comparison differs between the argument/input-field differs: %s" % conds)
     else:
-        from .. import boolx
         expr = ast.parse(list(conds.values())[0], mode="eval").body
         names = {"OLD.has_default_value": "o", "NEW.has_default_value": "n", "OLD.default_value == NEW.default_value": "eq"}
         try:
